@@ -179,10 +179,15 @@ class Message:
                             return_type = subcls
                             break
                     break
+        answer_flags = hdr.command_flags
         try:
-            return return_type(hdr)
+            answer = return_type(hdr)
         except NameError:
-            return Message(hdr)
+            answer = Message(hdr)
+        # answer classes set their own default flags while being constructed;
+        # an answer keeps only the proxyable bit of the request
+        answer.header.command_flags = answer_flags
+        return answer
 
     @classmethod
     def from_bytes(cls, msg_data: bytes, plain_msg: bool = False) -> _AnyMessageType:
